@@ -621,6 +621,9 @@ impl<'tcx> Cx<'tcx> {
                     for st in data.statements.iter() {
                         if let StatementKind::Assign(box (_, rv)) = &st.kind {
                             let mut ops: Vec<&Operand<'tcx>> = Vec::new();
+                            if let Rvalue::Aggregate(box AggregateKind::Closure(cdid, _), _) = rv {
+                                names.push(self.path(*cdid));
+                            }
                             match rv {
                                 Rvalue::Use(o, ..) | Rvalue::Cast(_, o, _) | Rvalue::UnaryOp(_, o) => {
                                     ops.push(o)
@@ -641,7 +644,7 @@ impl<'tcx> Cx<'tcx> {
                                     let j = self.const_val(did, &c.const_, c.span);
                                     if let J::Obj(kv) = &j {
                                         for (k, v) in kv.iter() {
-                                            if k == "uneval" || k == "static" || k == "fn" {
+                                            if k == "uneval" || k == "static" || k == "fn" || k == "closure" {
                                                 if let J::Str(sv) = v {
                                                     names.push(sv.clone());
                                                 }
